@@ -185,7 +185,7 @@ def deblend_sources(data, segment_img, npixels, *, labels=None, nlevels=32,
         nproc = cpu_count()  # pragma: no cover
 
     deblend_label_map = {}
-    max_label = segment_img.max_label
+    max_label = int(segment_img.max_label)
     if nproc == 1:
         if progress_bar:  # pragma: no cover
             desc = 'Deblending'
@@ -285,6 +285,11 @@ def deblend_sources(data, segment_img, npixels, *, labels=None, nlevels=32,
                 new_labels = _get_labels(new_segm) + max_label
                 deblend_label_map[label] = new_labels
                 max_label += len(new_labels)
+
+    if max_label > np.iinfo(segm_deblended.dtype).max:
+        raise ValueError('The deblended labels do not fit in the data type '
+                         f'({segm_deblended.dtype}) of the segmentation '
+                         'image.')
 
     # process any warnings during deblending
     warning_info = {}
